@@ -14,7 +14,7 @@ from typing import Any
 
 import numpy as np
 
-from .. import sm, simpool
+from .. import seams, sm, simpool
 from .. import prelude
 from ..core import Sim
 from ..simfs import SimFS
@@ -34,7 +34,7 @@ REAL_VS_STUB = {"real": ["run.save (Output, save_json, save, readers)", "run.sol
                 "seams": ["SimFS raw layer (fault-free, buffering / short-write knobs)"]}
 ASSUMPTIONS = ["metadata is compared key by key: JSON-native values equal, anything else must come back as a string",
                "matrices compared element-wise with NaN == NaN; shapes identical; data dtype float64"]
-PROBES = ["repeated_name", "nan_in_data", "inf_in_data", "float32_input", "actions_3d", "non_json_metadata",
+PROBES = ["save_from_another_process", "repeated_name", "nan_in_data", "inf_in_data", "float32_input", "actions_3d", "non_json_metadata",
           "e2e_solve", "e2e_greedy", "e2e_best_states", "history_5plus", "short_raw_writes"]
 TIERS = {
     "quick": {"runs": 20000, "wall": 40, "batch": 8, "shrink_s": 40},
@@ -145,7 +145,20 @@ def run_history(sim: Sim, fs: SimFS, save_mod) -> None:
         n_saves = 10 + sim.choose(12, "n-saves-many")
     if n_saves >= 5:
         sim.probe("history_5plus")
+    procs = seams.SimProcesses(sim)
+    nprocs = 1 + sim.choose(3, "processes-sharing-the-directory")
     for _ in range(n_saves):
+        # the saves of a history may come from several processes (each CLI run is one) sharing the directory
+        if nprocs > 1:
+            pid = sim.choose(nprocs, "saving-process")
+            if pid != procs.current:
+                sim.probe("save_from_another_process")
+            procs.switch(pid)
+            if sim.flip(1, 6, "process-restart"):
+                procs.restart()
+            for k in list(save_mod.SAVERS):  # every simulated process runs with the plot savers stubbed
+                if k != "data.json":
+                    save_mod.SAVERS[k] = _noop_saver
         name = sm.draw_name(sim, list(model))
         out = sm.draw_output(sim, special=True, max_rows=6, max_cols=6)
         d = np.asarray(out.data)
